@@ -12,4 +12,4 @@ Extraction "Model.ml"
   mem nodup_keys
   is_subset similar
   merger merge
-  infer_text infer_value array_text array_value.
+  infer_text infer_value array_text array_value conflict_free key_conflict.
